@@ -73,6 +73,38 @@ func bindResults(env *specEnv, sig *types.Signature, results []Val) {
 // ---- entry point for call instructions -------------------------------------------------
 
 func (f *frame) call(res ssa.Value, c *ssa.CallCommon, ins ssa.Instruction) {
+	f.call1(res, c, ins)
+	f.stepFrames(ins.Pos())
+}
+
+// stepFrames: in a function whose contract says so, the frame condition relative to function entry is proved
+// after every call and then assumed, so that the final frame obligation needs one step instead of the whole chain.
+func (f *frame) stepFrames(pos token.Pos) {
+	ct := f.contract
+	if !f.top || ct == nil || !ct.StepFrames || !ct.HasMod || f.R == "false" {
+		return
+	}
+	vc := f.vc
+	eng := vc.eng
+	eff := eng.contractEffects(ct, f.fn, f.fn.Signature)
+	if eff["*"] {
+		return
+	}
+	actual := eng.bodyEffects(f.fn)
+	delete(actual, "*")
+	known := map[string]bool{}
+	for h := range vc.heapSort {
+		known[h] = true
+	}
+	for _, fm := range f.frameConds(ct, f.specEnv(f.entry), f.entry, f.st, union(union(eff, actual), known)) {
+		if fm.formula == "true" {
+			continue
+		}
+		f.oblige("framestep", fm.heap, nil, fm.formula, pos)
+	}
+}
+
+func (f *frame) call1(res ssa.Value, c *ssa.CallCommon, ins ssa.Instruction) {
 	vc := f.vc
 	pos := ins.Pos()
 	setRes := func(vs []Val) {
@@ -118,6 +150,7 @@ func (f *frame) call(res ssa.Value, c *ssa.CallCommon, ins ssa.Instruction) {
 		for _, b := range callee.Bindings {
 			binds = append(binds, f.val(b))
 		}
+		f.atCallAssertions(fn.Name(), c, args, pos)
 		setRes(f.callFunc(fn, args, binds, c, pos))
 		return
 	}
@@ -201,6 +234,7 @@ func (f *frame) callFunc(fn *ssa.Function, args []Val, binds []Val, c *ssa.CallC
 				}
 			}
 		}
+		f.closureBinds = binds
 		return f.applyContract(ct, fn, fn.Signature, args, pos, funcDisplay(fn))
 	}
 	if hasBody && !(ct != nil && ct.NoInline) {
@@ -281,6 +315,29 @@ func (f *frame) applyContract(ct *Contract, fn *ssa.Function, sig *types.Signatu
 			env.vars[names[i]] = specVal{term: args[i].t, typ: ptypes[i], addr: args[i].addr}
 		}
 	}
+	// closures: captured variables under their names (value in the state the clause is evaluated in)
+	binds := f.closureBinds
+	f.closureBinds = nil
+	bindFV := func(e *specEnv, st *hstate) {
+		if fn == nil {
+			return
+		}
+		for i, fv := range fn.FreeVars {
+			if i >= len(binds) || binds[i].t == "" {
+				continue
+			}
+			et := deref(fv.Type())
+			if et == nil {
+				continue
+			}
+			if _, ok := isStruct(et); ok {
+				e.vars[fv.Name()] = specVal{term: binds[i].t, typ: et, loc: true}
+			} else {
+				e.vars[fv.Name()] = specVal{term: f.loadAt(binds[i], et, st), typ: et}
+			}
+		}
+	}
+	bindFV(env, pre)
 	for _, cl := range ct.Requires {
 		c := env.trBool(cl.Expr)
 		f.oblige("pre", display+"."+cl.Label, nil, c, pos)
@@ -303,6 +360,7 @@ func (f *frame) applyContract(ct *Contract, fn *ssa.Function, sig *types.Signatu
 	penv := env.clone()
 	penv.st = post
 	penv.old = pre
+	bindFV(penv, post)
 	bindResults(penv, sig, results)
 	for _, cl := range ct.Ensures {
 		f.assume(penv.trBool(cl.Expr))
